@@ -45,10 +45,10 @@ func verifAttackerMessage(pfx string, m *cose.Sign1Message) *cose.Sign1Message {
 		if m != nil {
 			a.Payload = m.Payload
 		} else {
-			a.Payload = ndBytes(pfx + ".payload.bytes")
+			a.Payload = verifNoTag(ndBytes(pfx + ".payload.bytes"))
 		}
 	case 2:
-		a.Payload = ndBytes(pfx + ".payload.bytes")
+		a.Payload = verifNoTag(ndBytes(pfx + ".payload.bytes"))
 	}
 	// the unprotected bucket may carry an algorithm as well (it must never be used)
 	if ndBool(pfx + ".unprotected.alg") {
@@ -511,7 +511,7 @@ func c02nativeAttack(tok []byte) (out []byte, differs bool, ok bool) {
 		differs = true
 	case 1:
 	case 2:
-		p := ndBytes("att.payload.bytes")
+		p := verifNoTag(ndBytes("att.payload.bytes"))
 		if string(p) != string(m.Payload) {
 			differs = true
 		}
@@ -570,12 +570,21 @@ func verifCBORInt(v int64) []byte {
 func VerifC20payload() {
 	l3install()
 	it := c04arbitrary("payload")
-	if it.kind == ikMap || it.kind == ikTag {
+	if it.kind == ikMap {
 		return
+	}
+	if it.kind == ikTag {
+		// a tagged non-map item is no claims map either: tagged null (which the codec would
+		// decode as a no-op) or a tagged integer; tag numbers the library validates are left out
+		ndAssume(it.u >= 6 && it.u != 55799)
+		if ndBool("payload.tagged.null") {
+			it.inner = &vItem{kind: ikNull}
+		}
 	}
 	buf := verifEncodeItem(it)
 	c, err := DecodeClaimsFromCBOR(buf)
 	ndAssert("c20-non-map-payload-is-not-a-claims-set", err != nil && c == nil)
 	ndCover("c20-payload-uint-rejected", err != nil && it.kind == ikUint)
 	ndCover("c20-payload-array-rejected", err != nil && it.kind == ikArray)
+	ndCover("c20-payload-tagged-null-rejected", err != nil && it.kind == ikTag && it.inner.kind == ikNull)
 }
